@@ -246,8 +246,9 @@ FdIsAlive(st) ==
 FdClose(st) ==
   IF st.fdv = "m1" THEN {R(st, "None")}
   ELSE {R([st EXCEPT !.fd = "closed", !.fdv = "m1", !.closed = TRUE], "None")}
-       \* deviation of the code as it is: shutdown() of a reset connection raises, nothing is released
-       \cup (IF "socket-close-raises" \in Devs /\ st.tr = "socket" /\ st.peer = "reset"
+       \* deviation of the code as it is: shutdown() fails once the peer is gone (ENOTCONN after a
+       \* reset, or after our own write hit the closed peer), close() raises, nothing is released
+       \cup (IF "socket-close-raises" \in Devs /\ st.tr = "socket" /\ st.peer # "open"
              THEN {Dev(R(st, "OSError"), "socket-close-raises")} ELSE {})
 
 FdSend(st) ==
@@ -347,43 +348,41 @@ Do(op, arg) ==
                    wasTerm |-> s.obs, pes |-> s.es, pss |-> s.ss, psk |-> s.sk, psv |-> s.sv]
   /\ nops' = nops + 1 /\ UNCHANGED nenv
 
-IsAlive      == Do("IsAlive", 0)
-Wait         == Do("Wait", 0)
-Kill(sig)    == Do("Kill", sig)
-Terminate(f) == Do("Terminate", f)
-Close(f)     == Do("Close", f)
-SendEof      == Do("SendEof", 0)
-ExpectEOF    == Do("ExpectEOF", 0)
-Send         == Do("Send", 0)
-Read         == Do("Read", 0)
-WithExit(e)  == Do("WithExit", e)
-Del          == Do("Del", 0)
+Has(op) == op \in OpNames(s.tr)
+
+\* one named action per public operation (the names TLC reports per-action coverage under)
+IsAlive      == /\ Has("IsAlive")   /\ Do("IsAlive", 0)
+Wait         == /\ Has("Wait")      /\ Do("Wait", 0)
+Kill(sig)    == /\ Has("Kill")      /\ Do("Kill", sig)
+Terminate(f) == /\ Has("Terminate") /\ f \in ArgsOf(s.tr, "Terminate") /\ Do("Terminate", f)
+Close(f)     == /\ Has("Close")     /\ f \in ArgsOf(s.tr, "Close") /\ Do("Close", f)
+SendEof      == /\ Has("SendEof")   /\ Do("SendEof", 0)
+ExpectEOF    == /\ Has("ExpectEOF") /\ Do("ExpectEOF", 0)
+Send         == /\ Has("Send")      /\ Do("Send", 0)
+Read         == /\ Has("Read")      /\ Do("Read", 0)
+WithExit(e)  == /\ Has("WithExit")  /\ Do("WithExit", e)
+Del          == /\ Has("Del")       /\ Do("Del", 0)
 
 EnvLast == [NoLast EXCEPT !.op = "env", !.wasTerm = s.obs, !.pes = s.es, !.pss = s.ss, !.psk = s.sk, !.psv = s.sv]
 Env(X) == /\ nenv < MaxEnv /\ ~s.gone
           /\ \E t \in X : s' = t
           /\ last' = EnvLast /\ nenv' = nenv + 1 /\ UNCHANGED nops
 
-ChildExits(c)     == Env(EnvExit(s, c))
-ExternalSignal(g) == Env(EnvSig(s, g))            \* 19: ChildStops, 18: ChildContinues
+\* silent kernel / environment steps
+ChildExits(c)     == /\ s.proc = "run" /\ Env(EnvExit(s, c))
+ExternalSignal(g) == /\ Live(s) /\ Env(EnvSig(s, g))            \* 19: ChildStops, 18: ChildContinues
 NumberReused      == /\ EnvReuse(s) # {} /\ s' \in EnvReuse(s) /\ last' = EnvLast /\ UNCHANGED <<nops, nenv>>
-PeerCloses        == Env(EnvPeerClose(s))
-PeerResets        == Env(EnvPeerReset(s))
-
-Has(op) == op \in OpNames(s.tr)
+PeerCloses        == /\ s.peer = "open" /\ Env(EnvPeerClose(s))
+PeerResets        == /\ s.peer = "open" /\ Env(EnvPeerReset(s))
 
 Next ==
-  \/ Has("IsAlive") /\ IsAlive
-  \/ Has("Wait") /\ Wait
-  \/ Has("Kill") /\ \E g \in KillSigs : Kill(g)
-  \/ Has("Terminate") /\ \E f \in ArgsOf(s.tr, "Terminate") : Terminate(f)
-  \/ Has("Close") /\ \E f \in ArgsOf(s.tr, "Close") : Close(f)
-  \/ Has("SendEof") /\ SendEof
-  \/ Has("ExpectEOF") /\ ExpectEOF
-  \/ Has("Send") /\ Send
-  \/ Has("Read") /\ Read
-  \/ Has("WithExit") /\ \E e \in {0, 1} : WithExit(e)
-  \/ Has("Del") /\ Del
+  \/ IsAlive \/ Wait
+  \/ \E g \in KillSigs : Kill(g)
+  \/ \E f \in {0, 1} : Terminate(f)
+  \/ \E f \in {0, 1} : Close(f)
+  \/ SendEof \/ ExpectEOF \/ Send \/ Read
+  \/ \E e \in {0, 1} : WithExit(e)
+  \/ Del
   \/ \E c \in Codes : ChildExits(c)
   \/ \E g \in ExtSigs : ExternalSignal(g)
   \/ NumberReused
